@@ -414,6 +414,8 @@ pub struct Interp {
     /// a cut removed several setup_call_cleanup/3 marks at once and the cleanup of one that is not the
     /// outermost of them failed (the shape of a known finding of C12)
     pub failed_cleanup_before_outer: bool,
+    /// calls of user predicates (clause resolution attempts started) in the last solve
+    pub user_calls: u64,
     /// largest number of solution groups one bagof/3 or setof/3 call had in the last solve
     pub bag_groups_max: usize,
     /// an exception abandoned a findall/3 (or bagof, setof, countall) that had already collected solutions
@@ -426,7 +428,7 @@ pub fn solve(p: &Program, query: &T, template: &T, lim: &Limits) -> RefOutcome {
 
 impl Interp {
     pub fn new(p: &Program) -> Interp {
-        let mut it = Interp { db: HashMap::new(), gen: 0, bind: HashMap::new(), trail: vec![], next_var: 0, choices: vec![], cont: None, steps: 0, lim: Limits::default(), next_id: 0, last_steps: 0, retract_skips_erased: false, log: vec![], scc: vec![], scc_pending: vec![], caught: 0, passed_catchers: 0, max_unwound: 0, unwound_carry: 0, rethrow_active: None, cut_directly_above_mark: false, failed_cleanup_before_outer: false, bag_groups_max: 0, findall_abandoned_nonempty: false };
+        let mut it = Interp { db: HashMap::new(), gen: 0, bind: HashMap::new(), trail: vec![], next_var: 0, choices: vec![], cont: None, steps: 0, lim: Limits::default(), next_id: 0, last_steps: 0, retract_skips_erased: false, log: vec![], scc: vec![], scc_pending: vec![], caught: 0, passed_catchers: 0, max_unwound: 0, unwound_carry: 0, rethrow_active: None, cut_directly_above_mark: false, failed_cleanup_before_outer: false, user_calls: 0, bag_groups_max: 0, findall_abandoned_nonempty: false };
         it.consult(p);
         it
     }
@@ -595,6 +597,7 @@ impl Interp {
         self.rethrow_active = None;
         self.cut_directly_above_mark = false;
         self.failed_cleanup_before_outer = false;
+        self.user_calls = 0;
         self.bag_groups_max = 0;
         self.findall_abandoned_nonempty = false;
         let q = intern(query);
@@ -1124,6 +1127,7 @@ impl Interp {
                         Some(p) => {
                             let snap = p.clauses.clone();
                             let gen = self.gen;
+                            self.user_calls += 1;
                             self.try_clauses(T::Cmp(name, args).atomize(), snap, 0, gen, next)
                         }
                     }
